@@ -683,7 +683,7 @@ func (g *sqlGen) makePrimaryTable(i int) {
 		t.truth.PrimaryType = t.idT.Name
 	}
 	var sharedKey *sqlTable
-	if !g.allNamedIDs && g.pr(0.12) {
+	if !g.allNamedIDs && g.pr(0.25) {
 		for _, prev := range g.tables[:len(g.tables)-1] {
 			if prev.truth.Primary != "" && prev.idT != nil {
 				sharedKey = prev
@@ -1012,6 +1012,27 @@ func (g *sqlGen) addDirectives() {
 				add(SQLDirective{Kind: "foreign-key-references", Raw: fmt.Sprintf("ADD FOREIGN KEY (%s) REFERENCES %s ON DELETE CASCADE", c.Field, c.FK.Target),
 					Expected: fmt.Sprintf("ALTER TABLE %s ADD FOREIGN KEY (%s) REFERENCES %s ON DELETE CASCADE;", tr.SQLName, c.Field, c.FK.TargetSQL)})
 				break
+			}
+		}
+		// a placeholder whose string value is spelled like a table struct of the file: the
+		// literal is not a table name and stays as it is
+		if ti == 0 && g.tableHint != "" && g.pr(0.7) {
+			member := g.strEnum.Blocks[0].Specs[0].Names[0]
+			add(SQLDirective{Kind: "placeholder-value-spelled-like-a-table",
+				Raw:      fmt.Sprintf("COMMENT ON TABLE %s IS #[%s.%s]", tr.Struct, g.strEnum.Name, member),
+				Expected: fmt.Sprintf("COMMENT ON TABLE %s IS %s /* %s.%s */;", tr.SQLName, g.strEnumVals[0], g.strEnum.Name, member)})
+		}
+		// unique + nullable foreign key declared by tag on a primary table
+		if tr.Primary != "" {
+			for i := range tr.Columns {
+				c := &tr.Columns[i]
+				if c.Kind == "fk:null-tag" && c.FK != nil && c.FK.Exists && !c.Unique && g.pr(0.5) {
+					add(SQLDirective{Kind: "unique-1", Raw: fmt.Sprintf("ADD UNIQUE(%s)", c.Field), Expected: fmt.Sprintf("ALTER TABLE %s ADD UNIQUE(%s);", tr.SQLName, c.Field)})
+					tr.Uniques = append(tr.Uniques, []string{c.Field})
+					c.Unique = true
+					g.p.Feature("sql:unique-nullable-foreign-key-by-tag")
+					break
+				}
 			}
 		}
 		// two REFERENCES in one statement, the later one naming a table that is not declared in
